@@ -691,6 +691,20 @@ impl CrashEnum {
         match crate::manifest::listed_ssts_tolerant(&root) {
             Some(listed) => {
                 let missing: Vec<&String> = listed.iter().filter(|d| !root.join("sst").join(format!("{d}.sst")).exists()).collect();
+                // C08 forbids REMOVING a listed file; "listed before it was ever linked" would be
+                // another protocol, not a removal.  Evidence of a removal: the file sits in trash/, or
+                // the fault-free prefix of the trace (identical up to call k) shows it being linked /
+                // renamed into sst/.
+                let was_there = |d: &String| {
+                    let name = format!("sst/{d}.sst");
+                    root.join("trash").join(format!("{d}.sst")).exists() || trace.map(|t| t.iter().take(case.k as usize + 1).any(|l| (l.kind == "link" || l.kind == "rename") && l.dest == name)).unwrap_or(false)
+                };
+                let missing: Vec<&String> = if missing.iter().any(|d| was_there(d)) { missing.into_iter().filter(|d| was_there(d)).collect() } else {
+                    if !missing.is_empty() {
+                        o.label("image:listed-sst-missing-without-evidence-of-removal(not-judged)");
+                    }
+                    vec![]
+                };
                 if let (Some(d), false) = (missing.first(), ctx.prop == "C08") {
                     // C02 speaks of what a reopen yields, not of the files: there this is a label
                     let _ = d;
@@ -957,7 +971,20 @@ impl Part for CrashEnum {
 
     fn replay(&self, ctx: &Ctx, case: &Value) -> Outcome {
         match serde_json::from_value::<CrashCase>(case.clone()) {
-            Ok(c) => Self::run_point(ctx, &c, None).outcome,
+            Ok(c) => {
+                // the fault-free trace (classes of the calls; evidence that a listed sst once existed)
+                let exe = std::env::current_exe().expect("exe");
+                let dir = ctx.scratch.join("crash-count");
+                let _ = std::fs::remove_dir_all(&dir);
+                std::fs::create_dir_all(&dir).expect("dir");
+                let root = dir.join("store");
+                let case_path = dir.join("case.json");
+                std::fs::write(&case_path, serde_json::to_vec(&c.history).unwrap()).expect("case");
+                let _ = Command::new(&exe).arg("child-run").arg(&case_path).arg(&root).arg("count").arg("0").arg("0").arg("0").stdout(std::process::Stdio::null()).stderr(std::process::Stdio::null()).status();
+                let trace = parse_trace(&std::fs::read_to_string(format!("{}.trace", root.display())).unwrap_or_default());
+                let _ = std::fs::remove_dir_all(&dir);
+                Self::run_point(ctx, &c, if trace.is_empty() { None } else { Some(&trace) }).outcome
+            }
             Err(e) => {
                 let mut o = Outcome::pass();
                 o.inconclusive = true;
